@@ -299,9 +299,8 @@ Definition csv_required : list Z := [k_time; k_id; k_parent].
 Definition raw_id_unique (t : table) : bool :=
   if memz k_id (t_cols t) then nodup_cells (column t k_id) else true.
 
-(* tracks_from_df(df, node_name_map=nm) = CSVTracksBuilder: read_header; build *)
-Definition import_csv (t : table) (ityp trk_ok lin_ok : bool) (nm0 : name_map) : outcome graph :=
-  match nm0 with [] => ValueErr | _ =>            (* if not self.node_name_map: raise ValueError *)
+(* CSVTracksBuilder.build for a non-empty name map *)
+Definition import_csv_body (t : table) (ityp trk_ok lin_ok : bool) (nm0 : name_map) : outcome graph :=
   let ndim0 := ndim_of_map nm0 in
   let nm := preprocess nm0 in
   if negb (validate_name_map csv_required (t_cols t) ndim0 nm) then ValueErr
@@ -332,14 +331,16 @@ Definition import_csv (t : table) (ityp trk_ok lin_ok : bool) (nm0 : name_map) :
       | None => ValueErr
       end
     | _, _ => OtherErr 1     (* df_dict.pop("id") / pop("parent_id"): KeyError *)
-    end
-  end.
+    end.
+(* tracks_from_df(df, node_name_map=nm) = CSVTracksBuilder: read_header; build
+   (if not self.node_name_map: raise ValueError) *)
+Definition import_csv (t : table) (ityp trk_ok lin_ok : bool) (nm0 : name_map) : outcome graph :=
+  match nm0 with [] => ValueErr | _ => import_csv_body t ityp trk_ok lin_ok nm0 end.
 
 (* ---------- GEFF: import_from_geff after read_to_memory ---------- *)
 (* GeffTracksBuilder.required_features *)
 Definition geff_required : list Z := [k_time].
-Definition import_geff (ids : list Z) (es : list (Z * Z)) (store : props) (trk_ok lin_ok : bool) (nm0 : name_map) : outcome graph :=
-  match nm0 with [] => ValueErr | _ =>
+Definition import_geff_body (ids : list Z) (es : list (Z * Z)) (store : props) (trk_ok lin_ok : bool) (nm0 : name_map) : outcome graph :=
   let ndim0 := ndim_of_map nm0 in
   let nm := preprocess nm0 in
   if negb (validate_name_map geff_required (keys store) ndim0 nm) then ValueErr
@@ -362,5 +363,6 @@ Definition import_geff (ids : list Z) (es : list (Z * Z)) (store : props) (trk_o
       finish ndim trk_ok lin_ok ids es (combine_multi nm ps0)
     | ValueErr => ValueErr
     | OtherErr c => OtherErr c
-    end
-  end.
+    end.
+Definition import_geff (ids : list Z) (es : list (Z * Z)) (store : props) (trk_ok lin_ok : bool) (nm0 : name_map) : outcome graph :=
+  match nm0 with [] => ValueErr | _ => import_geff_body ids es store trk_ok lin_ok nm0 end.
